@@ -99,6 +99,8 @@ class State:
         self.suspend_heap = None
         self.spec_side = []
         self._pc_ids = set()
+        self._lam_cache = {}
+        self.bound_stack = []    # variables bound by the enclosing spec quantifiers
         self.trail = []          # outcomes chosen for contract calls on this path (callee:ok / callee:ExcClass)
         self.suspend_ghost = None
         self.label = label
@@ -169,8 +171,26 @@ class State:
         """array defined pointwise: a fresh array constant A with the definitional axiom  forall k. A[k] == body(k).
         (z3 lambdas make the array theory incomplete for models; the axiom is instantiated at ground terms instead)"""
         k = bound[0]
+        from .solve import mentions
+        outer = [b for b in self.bound_stack if not b.eq(k) and mentions(body, [b])]
+        # the same pointwise definition always yields the same array (needed to identify sums written twice)
+        canon = [(k, z3.Const("cb_%s" % k.sort().name(), k.sort()))] + \
+                [(b, z3.Const("co%d_%s" % (i, b.sort().name()), b.sort())) for i, b in enumerate(outer)]
+        cbody = z3.substitute(body, *canon)     # kept alive in the cache: AST ids are only stable while referenced
+        key = cbody.get_id()
+        hit = self._lam_cache.get(key)
+        if hit is not None:
+            return hit[0](*outer) if outer else hit[0]
+        if outer:
+            # the body mentions variables bound by enclosing quantifiers: the defined array is a function of them
+            f = z3.Function(self.fresh_name("lamf"), *([b.sort() for b in outer] + [z3.ArraySort(k.sort(), body.sort())]))
+            arr = f(*outer)
+            self.assume(z3.ForAll(outer + [k], z3.Select(arr, k) == body))
+            self._lam_cache[key] = (f, cbody)
+            return arr
         arr = z3.FreshConst(z3.ArraySort(k.sort(), body.sort()), "lam")
         self.assume(z3.ForAll([k], z3.Select(arr, k) == body))
+        self._lam_cache[key] = (arr, cbody)
         return arr
 
     # -- dynamic classes ----------------------------------------------------------------
